@@ -1334,8 +1334,12 @@ class CambridgeSampler(BallotGenerator):
             )
 
             # Compute the pref interval for this bloc
+            # pair the intervals with the cohesion shares by bloc name, not by dictionary order
             pref_interval_dict = combine_preference_intervals(
-                list(self.pref_intervals_by_bloc[bloc].values()),
+                [
+                    self.pref_intervals_by_bloc[bloc][bloc],
+                    self.pref_intervals_by_bloc[bloc][opp_bloc],
+                ],
                 [cohesion_parameters[bloc], 1 - cohesion_parameters[bloc]],
             )
 
